@@ -260,8 +260,9 @@ def rerun_on_older_base(d, prop, tier, seeded=False):
       extra = [k for k in key_names(keys) if k not in key_names(bkeys) and
                k.split("/", 1)[-1] not in mech]
       if seeded:
-        new = [k for k in key_names(keys) if k not in key_names(bkeys) and
-               k.split("/", 1)[-1] not in mech]
+        # (by full key name: the seeded change is the only difference between
+        # the two trees, so a key the base tree does not report is its doing)
+        new = [k for k in key_names(keys) if k not in key_names(bkeys)]
         if rc == 1 and new:
           return "caught  on-base=%s new keys: %s" % (commit,
                                                       "; ".join(new)[:200])
